@@ -4,6 +4,7 @@ package column
 
 import (
 	"github.com/kelindar/bitmap"
+	"github.com/kelindar/intmap"
 	"github.com/kelindar/simd"
 )
 
@@ -125,3 +126,44 @@ var verifModelInstances = []interface{}{
 	verifModelMax[float32],
 	verifModelMax[float64],
 }
+
+// ---------------------------------------------------------------------------------------
+// intmap.Map (open-addressing hash map uint32 -> uint32): a list with linear search. Key 0 is a
+// valid key in the real map (kept in a side slot); the model has no special case.
+
+type vIntMap struct {
+	keys []uint32
+	vals []uint32
+}
+
+var vIntMaps = map[*intmap.Map]*vIntMap{}
+
+func verifModelIntmapNew(size int, fillFactor float64) *intmap.Map {
+	h := new(intmap.Map)
+	vIntMaps[h] = &vIntMap{}
+	return h
+}
+
+func verifModelIntmapLoad(m *intmap.Map, key uint32) (uint32, bool) {
+	s := vIntMaps[m]
+	for i, k := range s.keys {
+		if k == key {
+			return s.vals[i], true
+		}
+	}
+	return 0, false
+}
+
+func verifModelIntmapStore(m *intmap.Map, key, val uint32) {
+	s := vIntMaps[m]
+	for i, k := range s.keys {
+		if k == key {
+			s.vals[i] = val
+			return
+		}
+	}
+	s.keys = append(s.keys, key)
+	s.vals = append(s.vals, val)
+}
+
+func verifModelIntmapCount(m *intmap.Map) int { return len(vIntMaps[m].keys) }
